@@ -1,6 +1,7 @@
 package rules
 
 import (
+	"fmt"
 	"go/token"
 	"strconv"
 	"strings"
@@ -476,7 +477,7 @@ func ruleRenewWiring(w *core.World, r *core.Report) {
 			leader, _ := pkgConstInt(w, "pkg/cluster", "RoleLeader")
 			isLeader := false
 			for _, fct := range core.FactsAt(rsn.Instr.Block()) {
-				if c, ok := core.AsCmp(fct.Cond, fct.Val); ok && c.Op == token.EQL && isConstInt(leader)(c.Y) {
+				if c, ok := core.FactCmp(fct); ok && c.Op == token.EQL && isConstInt(leader)(c.Y) {
 					isLeader = true
 				}
 			}
@@ -493,75 +494,143 @@ func ruleLeaseConfig(w *core.World, r *core.Report) {
 	if f == nil {
 		return
 	}
-	isThird := func(v ssa.Value) bool {
-		b, ok := core.Unwrap(v).(*ssa.BinOp)
-		return ok && b.Op == token.QUO && isConstInt(3)(b.Y) && core.IsFieldLoad(b.X, "ClusterConfig", "LeaseTimeout")
-	}
-	var clamp *ssa.Store
-	var stores []*ssa.Store
-	for _, in := range core.Instrs(f) {
-		st, ok := in.(*ssa.Store)
-		if !ok {
-			continue
+	// Decided on the values the two fields hold when fix returns successfully, path by path:
+	// a small memory model (field -> value last stored on the path, or the configured value) gives
+	// every read of a field its value, branch outcomes become facts about those values, and
+	// renew <= lease/3 must follow from them. Helpers the normalisation is moved into are part
+	// of the path (see path stepping), so an inline if-chain and a normalise/clamp helper read alike.
+	recvField := func(p *core.Path, v ssa.Value) (string, bool) {
+		ld, ok := v.(*ssa.UnOp)
+		if !ok || ld.Op != token.MUL {
+			return "", false
 		}
-		fa, ok := st.Addr.(*ssa.FieldAddr)
-		if !ok {
-			continue
+		fa, ok := ld.X.(*ssa.FieldAddr)
+		if !ok || !strings.HasSuffix(core.TypeName(fa.X.Type()), "ClusterConfig") {
+			return "", false
 		}
 		n := core.FieldName(fa)
 		if n != "LeaseTimeout" && n != "LeaseRenewInterval" {
-			continue
+			return "", false
 		}
-		stores = append(stores, st)
-		if n == "LeaseRenewInterval" && isThird(st.Val) {
-			for _, fct := range core.FactsAt(st.Block()) {
-				c, ok := core.AsCmp(fct.Cond, fct.Val)
-				if ok && c.Op == token.GTR && core.IsFieldLoad(c.X, "ClusterConfig", "LeaseRenewInterval") && isThird(c.Y) {
-					clamp = st
+		return n, true
+	}
+	type fact struct {
+		op   token.Token
+		x, y string
+	}
+	bad := ""
+	var badPos token.Pos = f.Pos()
+	paths := 0
+	okEnum := core.EnumPathsN(f.Blocks[0], 0, 200000, 1, func(p *core.Path) {
+		ret, ok := p.End.(*ssa.Return)
+		if !ok || ret.Parent() != f || bad != "" || !pathNil(p, ret.Results[len(ret.Results)-1]) {
+			return
+		}
+		paths++
+		cur := map[string]string{"LeaseTimeout": "init:LeaseTimeout", "LeaseRenewInterval": "init:LeaseRenewInterval"}
+		loadVal := map[ssa.Value]string{}
+		consts := map[string]int64{}
+		var term func(v ssa.Value) string
+		term = func(v ssa.Value) string {
+			v = p.Resolve(v)
+			if t, ok := loadVal[v]; ok {
+				return t
+			}
+			if k, ok := core.ConstInt(v); ok {
+				t := "c:" + strconv.FormatInt(k, 10)
+				consts[t] = k
+				return t
+			}
+			switch x := v.(type) {
+			case *ssa.Convert:
+				return term(x.X)
+			case *ssa.ChangeType:
+				return term(x.X)
+			case *ssa.BinOp:
+				if x.Op == token.QUO && isConstInt(3)(x.Y) {
+					return "third(" + term(x.X) + ")"
+				}
+			}
+			return fmt.Sprintf("v:%p", v)
+		}
+		var facts []fact
+		ci := 0
+		for _, in := range p.Instrs {
+			switch x := in.(type) {
+			case *ssa.UnOp:
+				if n, ok := recvField(p, x); ok {
+					loadVal[x] = cur[n]
+				}
+			case *ssa.Store:
+				if fa, ok := x.Addr.(*ssa.FieldAddr); ok && strings.HasSuffix(core.TypeName(fa.X.Type()), "ClusterConfig") {
+					if n := core.FieldName(fa); n == "LeaseTimeout" || n == "LeaseRenewInterval" {
+						cur[n] = term(x.Val)
+					}
+				}
+			case *ssa.If:
+				for ci < len(p.Conds) && p.Conds[ci].If != x {
+					ci++
+				}
+				if ci < len(p.Conds) {
+					if c, ok := core.FactCmp(p.Conds[ci]); ok {
+						facts = append(facts, fact{c.Op, term(c.X), term(c.Y)})
+					}
+					ci++
 				}
 			}
 		}
-	}
-	if clamp == nil {
-		r.Fail("ClusterConfig.fix/clamp", f.Pos(), "no clamp 'if renew > lease/3 { renew = lease/3 }' found: a configured renew interval above a third of the lease lets the lease lapse between renewals")
-		return
-	}
-	// the clamp decision is the last write of either field: from the clamp's test no other store is reachable
-	var clampIf ssa.Instruction
-	for _, fct := range core.FactsAt(clamp.Block()) {
-		if c, ok := core.AsCmp(fct.Cond, fct.Val); ok && c.Op == token.GTR && isThird(c.Y) {
-			clampIf = fct.If
-		}
-	}
-	later := core.PathFrom(f, clampIf, func(in ssa.Instruction) bool {
-		for _, st := range stores {
-			if in == ssa.Instruction(st) && st != clamp {
+		R, L := cur["LeaseRenewInterval"], cur["LeaseTimeout"]
+		third := "third(" + L + ")"
+		le := func(a, b string) bool { // a <= b follows from one fact
+			if a == b {
 				return true
 			}
-		}
-		return false
-	}, nil)
-	r.Check(later == nil, "ClusterConfig.fix/clamp-last", clamp.Pos(), "a lease field is written after the renew<=lease/3 clamp was decided")
-	// lower bounds: lease >= 3s, renew floor 1s  (1s <= 3s/3)
-	var leaseFloor, renewFloor int64 = -1, -1
-	for _, st := range stores {
-		k, ok := core.ConstInt(st.Val)
-		if !ok {
-			continue
-		}
-		for _, fct := range core.FactsAt(st.Block()) {
-			c, ok := core.AsCmp(fct.Cond, fct.Val)
-			if ok && c.Op == token.LSS {
-				if core.IsFieldLoad(c.X, "ClusterConfig", "LeaseTimeout") {
-					leaseFloor = k
-				}
-				if core.IsFieldLoad(c.X, "ClusterConfig", "LeaseRenewInterval") {
-					renewFloor = k
+			for _, fc := range facts {
+				switch {
+				case (fc.op == token.LEQ || fc.op == token.LSS || fc.op == token.EQL) && fc.x == a && fc.y == b:
+					return true
+				case (fc.op == token.GEQ || fc.op == token.GTR || fc.op == token.EQL) && fc.x == b && fc.y == a:
+					return true
 				}
 			}
+			return false
 		}
+		atLeast := func(v string, k int64) bool { // v >= k
+			if c, ok := consts[v]; ok {
+				return c >= k
+			}
+			for _, fc := range facts {
+				if fc.x == v {
+					if c, ok := consts[fc.y]; ok && ((fc.op == token.GEQ && c >= k) || (fc.op == token.GTR && c+1 >= k) || (fc.op == token.EQL && c >= k)) {
+						return true
+					}
+				}
+				if fc.y == v {
+					if c, ok := consts[fc.x]; ok && ((fc.op == token.LEQ && c >= k) || (fc.op == token.LSS && c+1 >= k)) {
+						return true
+					}
+				}
+			}
+			return false
+		}
+		ok = le(R, third)
+		if !ok {
+			if c, isC := consts[R]; isC && c >= 0 && atLeast(L, 3*c) {
+				ok = true // a constant floor: k <= lease/3 because lease >= 3k
+			}
+		}
+		if !ok {
+			bad, badPos = "fix can return with a renew interval that is not known to be <= lease timeout / 3 (renew="+R+", lease="+L+"): a renew interval above a third of the lease lets the lease lapse between renewals, and a second instance is granted leadership", ret.Pos()
+		}
+	})
+	if !okEnum {
+		r.Undecided("ClusterConfig.fix/clamp", f.Pos(), "too many paths")
+		return
 	}
-	r.Check(leaseFloor > 0 && renewFloor > 0 && renewFloor*3 <= leaseFloor, "ClusterConfig.fix/floors", f.Pos(), "lower bounds must satisfy renew floor * 3 <= lease floor (lease=%d renew=%d ns)", leaseFloor, renewFloor)
+	r.Check(bad == "" && paths > 0, "ClusterConfig.fix/clamp", badPos, "%s (successful paths=%d)", bad, paths)
+	if bad == "" && paths > 0 {
+		r.OK("ClusterConfig.fix/clamp-last", f.Pos(), "decided on the values held at return")
+	}
 }
 
 // ---------------------------------------------------------------- R15.7 one lease per shard
